@@ -175,6 +175,18 @@ func dispOp(c *Ctx, op string) {
 		if !advertises(a["kind"], a["codecs"], ct) {
 			c.Fail("disp-accepted-unadvertised", op, ans, "a Content-Type that is not advertised was dispatched")
 		}
+		// a Connect call is served as a Connect call: the Connect content type of a registered
+		// codec selects the Connect protocol with that codec, even when the codec's name makes the
+		// type coincide with one of gRPC's
+		pfx := "application/connect+"
+		if a["kind"] == "unary" {
+			pfx = "application/"
+		}
+		for _, n := range strings.Split(a["codecs"], ",") {
+			if n != "" && ct == pfx+n && !strings.Contains(ans, " proto=connect codec="+n+" ") {
+				c.Fail("disp-connect-type-elsewhere", op, ans, "the Connect content type of registered codec "+n+" was not served by the Connect protocol with that codec")
+			}
+		}
 	case strings.HasPrefix(ans, "415"):
 		if advertises(a["kind"], a["codecs"], ct) {
 			c.Fail("disp-415-advertised", op, ans, "an advertised Content-Type was rejected")
